@@ -1,7 +1,7 @@
 """C06 -- unselected features are inert; selection reads exact zeros; groups stay whole."""
 import itertools
 
-META = dict(level="proof", trusted_base=["z3 5.1", "own normal-form prover", "FX term interpreter", "softmax contract"])
+META = dict(level="proof", trusted_base=["z3 5.1", "own normal-form prover", "FX term interpreter", "installed sklearn softmax run on exact reals under its own contract"])
 
 
 def tasks(tier, seed):
@@ -27,6 +27,9 @@ def tasks(tier, seed):
     # boundary values of the hierarchy step: M = 0 forces the first layer to zero (|W1| <= 0 * ||W_skip||), alpha = 0 keeps the hierarchy
     t.append(("contracts.prox", "task", ("hier", (1, 2, "M0", 1), seed), to, "hier[k=1,h=2,M0] (feasibility: hierarchy)"))
     t.append(("contracts.prox", "task", ("hier", (2, 1, "alpha0", 1), seed), to, "hier[k=2,h=1,alpha0] (feasibility: hierarchy)"))
+    # the threshold alpha * optimiser_.learning_rate reads the optimiser's *current* step size: contract on the installed optimisers
+    from contracts import external_deps
+    t += external_deps.softmax_tasks(tier, seed) + external_deps.optimiser_tasks(tier, seed)
     return t
 
 
@@ -36,6 +39,8 @@ def extra(led, tier, seed):
     led.extend(sparse_sel.fit_groups_flow())
     led.extend(sparse_sel.check_groups_exhaustive(4 if tier == "thorough" else 3))
     led.assume("A1", "A2", "A3", "A4", "A8",
+               "discharged, no longer assumed: the installed sklearn softmax equals the stub used by the inertness contracts; the installed SGDOptimizer keeps learning_rate at the "
+               "constructor value and AdamOptimizer stores lr_init*sqrt(1-beta2^t)/(1-beta1^t) in learning_rate at every step (the value the proximal threshold reads)",
                "hierarchy: feasibility |W1[f,j]| <= M*||W_skip[f]|| of the hierarchical prox (C05 contract, re-checked here) makes the first-layer row of an "
                "unselected feature zero after every update, which is the precondition of the inertness contract",
                "a generic (symbolic) weight row is non-zero except on a measure-zero set; exact zero rows are modelled as concrete zeros",
